@@ -58,12 +58,7 @@ func (a *agent) Tick() bool {
 				req = mem.ReadReqBuilder{}.WithSrc(a.port.AsRemote()).WithDst(a.dst).WithAddress(unpair(p.A)).
 					WithByteSize(p.N).WithPID(vm.PID(p.PID)).Build()
 			} else {
-				mask := make([]bool, len(p.M))
-				for i, x := range p.M {
-					mask[i] = x != 0
-				}
-				req = mem.WriteReqBuilder{}.WithSrc(a.port.AsRemote()).WithDst(a.dst).WithAddress(unpair(p.A)).
-					WithData(bytesOf(p.D)).WithDirtyMask(mask).WithPID(vm.PID(p.PID)).Build()
+				req = buildWrite(a.port.AsRemote(), a.dst, p)
 			}
 			if a.port.Send(req) == nil {
 				a.script = a.script[1:]
@@ -207,8 +202,8 @@ func systemRun(rec *ab.Recorder, rng *rand.Rand, n int) map[string]int {
 				p = &Payload{K: "w", A: pair(addr), PID: pid}
 				for j := 0; j < size && j < 16; j++ {
 					p.D = append(p.D, rng.Intn(256))
-					p.M = append(p.M, rng.Intn(2))
 				}
+				p.M = randMask(rng, len(p.D))
 			}
 			lastP = p
 			a.script = append(a.script, p)
